@@ -19,6 +19,9 @@ def main():
     wt = tempfile.mkdtemp(prefix="mutrepo.", dir="/tmp")
     os.rmdir(wt)
     sh("git -C /repo worktree add -q --detach %s HEAD" % wt)
+    # the checks run from a snapshot of the COMMITTED /verif, so that edits in progress in /verif cannot disturb a sweep
+    snap = tempfile.mkdtemp(prefix="mutverif.", dir="/tmp")
+    sh("git -C %s archive HEAD | tar -x -C %s" % (VERIF, snap))
     try:
         for name in names:
             d = os.path.join(SEEDED, name)
@@ -44,9 +47,12 @@ def main():
             meta["confirmed"] = {"demo_rc_without_change": r0.returncode, "demo_rc_with_change": r1.returncode,
                                  "suite_with_change": suite.stdout.strip().split(" in ")[0]}
             env = dict(os.environ, VERIF_REPO=wt)
-            chk = subprocess.run(["./check", pid], cwd=VERIF, env=env, stdout=subprocess.PIPE, stderr=subprocess.STDOUT, text=True)
+            chk = subprocess.run(["./check", pid], cwd=snap, env=env, stdout=subprocess.PIPE, stderr=subprocess.STDOUT, text=True)
+            if chk.returncode not in (0, 1):
+                meta["machinery_failure_tail"] = chk.stdout[-600:]
             sigs = re.findall(r"^  sig=(\S+)", chk.stdout, re.M)
-            meta["ran"] = "VERIF_REPO=<scratch worktree of /repo HEAD + patch.diff> ./check %s --tier quick" % pid
+            meta["ran"] = "VERIF_REPO=<scratch worktree of /repo HEAD + patch.diff> ./check %s --tier quick  (from a snapshot of /verif HEAD %s)" % (
+                pid, sh("git -C %s log --format=%%h -n1" % VERIF).stdout.strip())
             meta["detected"] = {"check": pid, "exit": chk.returncode, "violation_lines": chk.stdout.count("\nVIOLATION") + chk.stdout.startswith("VIOLATION"),
                                 "signatures": sigs[:6]}
             json.dump(meta, open(mp, "w"), indent=1)
@@ -55,6 +61,7 @@ def main():
     finally:
         sh("git -C /repo worktree remove --force %s" % wt)
         shutil.rmtree(wt, ignore_errors=True)
+        shutil.rmtree(snap, ignore_errors=True)
 
 
 if __name__ == "__main__":
